@@ -232,7 +232,12 @@ func (o *FilterOptimizer) optimizeGtGteExpr(e *BinaryOpExpr) *ScanType {
 	if _, isLit := e.Left.(*StringExpr); isLit {
 		if _, isField := e.Right.(*FieldExpr); isField {
 			// 'x' > key means key < 'x', infer the range from the mirrored expression
-			return o.optimizeLtLteExpr(&BinaryOpExpr{Pos: e.Pos, Op: Lte, Left: e.Right, Right: e.Left})
+			// (a strict comparison stays strict: '' > key holds for no key)
+			mop := Lte
+			if e.Op == Gt {
+				mop = Lt
+			}
+			return o.optimizeLtLteExpr(&BinaryOpExpr{Pos: e.Pos, Op: mop, Left: e.Right, Right: e.Left})
 		}
 	}
 
@@ -295,7 +300,11 @@ func (o *FilterOptimizer) optimizeLtLteExpr(e *BinaryOpExpr) *ScanType {
 	// return RANGE scan with end
 	if field == KeyKW && key != nil {
 		if string(key) == "" {
-			// key < '' or key <= '' means no keys should be scan
+			if e.Op == Lte {
+				// key <= '' holds for the empty key, and only for it
+				return &ScanType{MGET, [][]byte{key}}
+			}
+			// key < '' means no keys should be scan
 			return &ScanType{EMPTY, nil}
 		}
 		return &ScanType{RANGE, [][]byte{nil, key}}
